@@ -20,9 +20,11 @@ func init() {
 			"(R4) every constant-bound slice of a request-derived string is dominated by a sufficient length test; (R5) method-class table of getEffectiveMethod and the Read/Write permission lookups; " +
 			"(R6) per-key state is per key: every pointer stored into an API-key token or the key map inside updateAPIKeys' loop (the token, its expiry time) is allocated anew between any two executions of the store, so no two keys share an expiry. " +
 			"(R7) lock pairing over the functions of package(s) api: " + lockRuleText + ". " +
+			"(R8) error discipline over package api without the database API: " + repoErrText + ". " +
 			"NOT decided: net/http and gorilla/mux behaviour, the header grammar beyond guards, session TTL timing.",
 		Rules: []ruleFn{c12R1, c12R2, c12R3, c12R4, c12R5, c12R6,
-			lockRuleFor("C12-R7", 12, []string{"api"}, []string{}, map[string]string{})},
+			lockRuleFor("C12-R7", 12, []string{"api"}, []string{}, map[string]string{}),
+			repoErrRuleFor("C12-R8", 30, func(c *Ctx, fn *ssa.Function) bool { return short(fn.Pkg.Pkg.Path()) == "api" && !inFile(c, fn, "api/database.go") }, map[string]string{"api.(*mainHandler).ServeHTTP / modules.Module.RunWorker": "the request worker reports its own errors to the client and the module error channel; ServeHTTP has nobody to return to", "api.start / api.updateAPIKeys": "updateAPIKeys logs invalid keys itself and always returns nil"})},
 	})
 }
 
